@@ -70,7 +70,10 @@ def verify_triage_side_conditions(prog, ctx):
     # the per-chromosome groups file is only read back line by line into <grouper>.read_groups.add()
     ok2 = any(isinstance(c, ast.Call) and isinstance(c.func, ast.Attribute) and c.func.attr == "add" and src(c.func.value).endswith(".read_groups")
               for c in walk_no_nested(g)) and \
-        any(isinstance(l, ast.For) and isinstance(l.iter, ast.Call) and call_name(l.iter) == "open" for l in walk_no_nested(g))
+        any(isinstance(l, ast.For) and ((isinstance(l.iter, ast.Call) and call_name(l.iter) == "open") or (
+            isinstance(l.iter, ast.Name) and any(isinstance(w, ast.With) and any(
+                isinstance(i.optional_vars, ast.Name) and i.optional_vars.id == l.iter.id and isinstance(i.context_expr, ast.Call)
+                and call_name(i.context_expr) == "open" for i in w.items) for w in walk_no_nested(g)))) for l in walk_no_nested(g))
     r = prog.func("src/long_read_assigner.py", "LongReadAssigner.resolve_by_nucleotide_score")
     # of the sorted score list only [0][1] (the maximal score) is read, never [0][0]
     firsts = [n for n in walk_no_nested(r) if isinstance(n, ast.Subscript) and isinstance(n.value, ast.Subscript)
